@@ -49,6 +49,12 @@ CHECKS = {
     "C16": ("exploration", "runtime monitoring: invariant at a hook — sys.monitoring PY_RETURN probe on the node factory validates every node born anywhere (repository's own contract catalogue + independent mirror relation)",
             "A sys.monitoring probe on _pipeline_node_factory (and the two factory constructors it never calls) queues every node constructed anywhere in the workload; after the constructing call returns, the repository's own validate_component runs on the generated node class, the generated processor class and the wrapped classes (no error-level diagnostic allowed), and the node's declared input/output types and created keys are compared with values computed independently from the component table and the wrapping. Workload: a 612-configuration enumeration (every component kind x every wrapping factory x nested combinations x parameter placements) plus generated pipelines run through Pipeline.process, inspection and `semantiva inspect`. Held = no error diagnostic and no mirror deviation on the nodes observed.",
             "Expected types/keys come from vlib/nodespace.py + vlib/refmodel.COMPONENTS. A _ContextDataProcessorNode's inner processor keys are a don't-care (it runs without a context observer).", "DESIGN.md §4 C16"),
+    "C04": ("exploration", "runtime monitoring: metamorphic equality of the identity tuple across cosmetic rewrites, processes, hash seeds, working directories, time zones, histories and the three paths (inspection payload, Pipeline construction, trace pipeline_start / `semantiva inspect` stdout)",
+            "Generated configurations (with sweeps, from_context variables, nested parameters, duplicate nodes, run_space blocks) are rewritten by 24 self-checked meaning-preserving rewriters (key order at every depth, YAML block/flow style, quoting, anchors, equivalent scalar spellings, +/* operand permutation and re-association, sweep-variable reordering); identities from build_inspection_payload, Pipeline construction, traced pipeline_start of run 1 and run 2 of one object, and `semantiva inspect` stdout must be equal across rewrites, in-process repeats, histories of 1..20 unrelated pipelines, and fresh subprocesses (PYTHONHASHSEED 0/1/4242/random, second cwd, shifted TZ). Held = no differing identity on the executions observed.",
+            "Every rewritten YAML is self-checked (yaml.safe_load equality modulo key order) before use. context_key-only differences are an observation, not part of the property.", "DESIGN.md §4 C04"),
+    "C05": ("exploration", "runtime monitoring: metamorphic inequality of identities across single-point semantic mutations (all operators at all positions) + UUID uniqueness",
+            "For every generated configuration every applicable mutation operator is applied at every applicable position (processor, parameter value at depth 0/1/2, node delete/duplicate/swap, and inside a sweep: wrapped processor, non-equivalent expression established by evaluation, variable bound/steps/scale/endpoint/sequence element/from_context key, mode, broadcast); semantic ID and config ID must both change and the affected node's UUID or node semantic ID must change; node UUIDs within a pipeline must be unique, textually identical duplicates included. Held = no surviving mutation on the pairs observed.",
+            "No second collection type exists in the library, so the sweep-collection operator is not generated (stated in the evidence).", "DESIGN.md §4 C05"),
 }
 
 NOT_BUILT_REASON = "check not implemented yet in this round (work in progress; see DESIGN.md §4 for the planned monitor)"
